@@ -50,7 +50,7 @@ var tables = map[string]struct {
 		"CompareAndSwapInt32", "CompareAndSwapInt64", "CompareAndSwapUint32", "CompareAndSwapUint64", "CompareAndSwapPointer",
 		"Value"), strict: true},
 	"go.uber.org/atomic": {shim: "vuatomic", idents: set("Bool", "String", "Uint32", "Int32", "Int64", "Uint64",
-		"NewBool", "NewString", "NewUint32", "NewInt32", "NewInt64", "NewUint64"), strict: true},
+		"Value", "NewBool", "NewString", "NewUint32", "NewInt32", "NewInt64", "NewUint64"), strict: true},
 	"time": {shim: "vtime", idents: set("Sleep", "AfterFunc", "NewTimer", "After", "NewTicker", "Timer", "Ticker", "Now", "Since", "Until"),
 		strict: false, allow: nil},
 	"mosn.io/pkg/utils": {shim: "vutils", idents: set("NewTimer", "Timer", "GoWithRecover"), strict: false},
